@@ -30,64 +30,101 @@ fn repl(w: &mut World, key: &str, val: &str, ver: u64, st: u8) -> Option<String>
     deliver(w, &WMsg::Ack { ops: vec![WOp::Node { id: wid("n2"), gc: 0, from: 0 }, WOp::KV { key: key.to_string(), val: val.to_string(), ver, st }] })
 }
 
+
+/// Realises one case on a real node; returns the callback invocations of the event step and a
+/// caught panic, if any.
+fn run_case(case: &Value) -> (Vec<Value>, Option<String>) {
+        let mut w = World::new(WorldCfg { nodes: vec!["n1".into()], grace: 1000, ..Default::default() });
+    let log: Arc<Mutex<Vec<Value>>> = Arc::new(Mutex::new(Vec::new()));
+    let subs = case["subs"].as_array().cloned().unwrap_or_default();
+    let mut handles: Vec<Option<ListenerHandle>> = Vec::new();
+    for (i, s) in subs.iter().enumerate() {
+        let prefix = real(s["prefix"].as_str().unwrap_or(""));
+        let lg = log.clone();
+        let h = w.nodes.get("n1").unwrap().cc.subscribe_event(prefix, move |ev| {
+            lg.lock().unwrap().push(json!({"sub": i + 1, "key": model(ev.key), "value": ev.value, "node": ev.node.node_id}));
+        });
+        handles.push(Some(h));
+    }
+    for (i, s) in subs.iter().enumerate() {
+        match s["fate"].as_str().unwrap_or("held") {
+            "dropped" => drop(handles[i].take()),
+            "forever" => handles[i].take().unwrap().forever(),
+            _ => {}
+        }
+    }
+    let key = real(case["key"].as_str().unwrap_or(""));
+    let kind = case["kind"].as_str().unwrap_or("");
+    let mut panic: Option<String> = None;
+    // the remote owner must be known before replicated writes can be applied
+    deliver(&mut w, &WMsg::Syn { cluster: "c".into(), digest: vec![WNodeDigest { id: wid("n2"), hb: 1, gc: 0, max: 0 }] });
+    // preparation (its calls are not part of the event)
+    let pre = catch_unwind(AssertUnwindSafe(|| match kind {
+        "LocalSetChange" => w.api("n1", "Set", &key, "v0"),
+        "LocalSetSame" | "LocalDelete" | "LocalDeleteTtl" => w.api("n1", "Set", &key, "v1"),
+        "LocalSetAfterDelete" => w.api("n1", "Set", &key, "v1").or(w.api("n1", "Delete", &key, "")),
+        "ReplTombstone" => repl(&mut w, &key, "v0", 1, 0),
+        "ReplStale" => repl(&mut w, &key, "v0", 2, 0),
+        _ => None,
+    }));
+    let pre_panic = match pre { Ok(p) => p, Err(e) => Some(panic_text(e)) };
+    log.lock().unwrap().clear();
+    let ev = catch_unwind(AssertUnwindSafe(|| match kind {
+        "LocalSetNew" | "LocalSetChange" | "LocalSetSame" | "LocalSetAfterDelete" => w.api("n1", "Set", &key, "v1"),
+        "LocalSetTtlNew" => w.api("n1", "SetTtl", &key, "v1"),
+        "LocalDelete" => w.api("n1", "Delete", &key, ""),
+        "LocalDeleteTtl" => w.api("n1", "DeleteTtl", &key, ""),
+        "ReplNewerSet" => repl(&mut w, &key, "v1", 1, 0),
+        "ReplNewerTtl" => repl(&mut w, &key, "v1", 1, 2),
+        "ReplTombstone" => repl(&mut w, &key, "", 2, 1),
+        "ReplStale" => repl(&mut w, &key, "v1", 1, 0),
+        _ => Some(format!("unknown kind {kind}")),
+    }));
+    match ev { Ok(p) => { if p.is_some() { panic = p; } } Err(e) => panic = Some(panic_text(e)) }
+    if panic.is_none() { panic = pre_panic; }
+    let observed: Vec<Value> = log.lock().unwrap().clone();
+    (observed, panic)
+}
+
 fn main() {
     vharness::world::install_quiet_panic_hook();
     let out = std::io::stdout();
     let mut out = out.lock();
+    if std::env::args().nth(1).as_deref() == Some("random") {
+        // up to 8 subscriptions with random prefixes (<= 3 characters over a, b, é, 𝄞), random fates,
+        // random key and kind of event: every record is emitted for the TLA+ judge
+        use rand::prelude::*;
+        let seed: u64 = std::env::args().nth(2).and_then(|s| s.parse().ok()).unwrap_or(1);
+        let n: u64 = std::env::args().nth(3).and_then(|s| s.parse().ok()).unwrap_or(500);
+        let mut rng = StdRng::seed_from_u64(seed);
+        let alphabet = ['a', 'b', 'E', 'G'];
+        let kinds = ["LocalSetNew", "LocalSetChange", "LocalSetSame", "LocalSetAfterDelete", "LocalSetTtlNew", "LocalDelete", "LocalDeleteTtl", "ReplNewerSet", "ReplNewerTtl", "ReplTombstone", "ReplStale"];
+        let fates = ["held", "dropped", "forever"];
+        let word = |rng: &mut StdRng, maxlen: usize| -> String { let l = rng.random_range(0..=maxlen); (0..l).map(|_| alphabet[rng.random_range(0..4)]).collect() };
+        for _ in 0..n {
+            let key = word(&mut rng, 3);
+            let nsubs = rng.random_range(1..=8);
+            let subs: Vec<Value> = (0..nsubs).map(|_| {
+                // half of the prefixes are derived from the key so that matches are frequent
+                let p = if rng.random_bool(0.5) { let cut = rng.random_range(0..=key.chars().count()); key.chars().take(cut).collect::<String>() } else { word(&mut rng, 3) };
+                json!({"prefix": p, "fate": fates[rng.random_range(0..3)]})
+            }).collect();
+            let case = json!({"subs": subs, "key": key, "kind": kinds[rng.random_range(0..kinds.len())], "expect": []});
+            let (observed, panic) = run_case(&case);
+            let subs_c: Vec<Value> = case["subs"].as_array().unwrap().iter().map(|s| json!({"chars": chars(s["prefix"].as_str().unwrap_or("")), "fate": s["fate"]})).collect();
+            writeln!(out, "{}", json!({"record": true, "case": case, "subs": subs_c, "keychars": chars(case["key"].as_str().unwrap_or("")),
+                "kind": case["kind"], "observed": observed, "panic": panic.is_some(), "panic_text": panic})).unwrap();
+        }
+        return;
+    }
     let max_report: u64 = std::env::args().nth(1).and_then(|s| s.parse().ok()).unwrap_or(30);
     let (mut total, mut bad, mut panics, mut firing) = (0u64, 0u64, 0u64, 0u64);
     let stdin = std::io::stdin();
     vharness::read_behaviours(stdin.lock(), |case| {
         total += 1;
-        let mut w = World::new(WorldCfg { nodes: vec!["n1".into()], grace: 1000, ..Default::default() });
-        let log: Arc<Mutex<Vec<Value>>> = Arc::new(Mutex::new(Vec::new()));
+        let (observed, panic) = run_case(&case);
         let subs = case["subs"].as_array().cloned().unwrap_or_default();
-        let mut handles: Vec<Option<ListenerHandle>> = Vec::new();
-        for (i, s) in subs.iter().enumerate() {
-            let prefix = real(s["prefix"].as_str().unwrap_or(""));
-            let lg = log.clone();
-            let h = w.nodes.get("n1").unwrap().cc.subscribe_event(prefix, move |ev| {
-                lg.lock().unwrap().push(json!({"sub": i + 1, "key": model(ev.key), "value": ev.value, "node": ev.node.node_id}));
-            });
-            handles.push(Some(h));
-        }
-        for (i, s) in subs.iter().enumerate() {
-            match s["fate"].as_str().unwrap_or("held") {
-                "dropped" => drop(handles[i].take()),
-                "forever" => handles[i].take().unwrap().forever(),
-                _ => {}
-            }
-        }
-        let key = real(case["key"].as_str().unwrap_or(""));
         let kind = case["kind"].as_str().unwrap_or("");
-        let mut panic: Option<String> = None;
-        // the remote owner must be known before replicated writes can be applied
-        deliver(&mut w, &WMsg::Syn { cluster: "c".into(), digest: vec![WNodeDigest { id: wid("n2"), hb: 1, gc: 0, max: 0 }] });
-        // preparation (its calls are not part of the event)
-        let pre = catch_unwind(AssertUnwindSafe(|| match kind {
-            "LocalSetChange" => w.api("n1", "Set", &key, "v0"),
-            "LocalSetSame" | "LocalDelete" | "LocalDeleteTtl" => w.api("n1", "Set", &key, "v1"),
-            "LocalSetAfterDelete" => w.api("n1", "Set", &key, "v1").or(w.api("n1", "Delete", &key, "")),
-            "ReplTombstone" => repl(&mut w, &key, "v0", 1, 0),
-            "ReplStale" => repl(&mut w, &key, "v0", 2, 0),
-            _ => None,
-        }));
-        let pre_panic = match pre { Ok(p) => p, Err(e) => Some(panic_text(e)) };
-        log.lock().unwrap().clear();
-        let ev = catch_unwind(AssertUnwindSafe(|| match kind {
-            "LocalSetNew" | "LocalSetChange" | "LocalSetSame" | "LocalSetAfterDelete" => w.api("n1", "Set", &key, "v1"),
-            "LocalSetTtlNew" => w.api("n1", "SetTtl", &key, "v1"),
-            "LocalDelete" => w.api("n1", "Delete", &key, ""),
-            "LocalDeleteTtl" => w.api("n1", "DeleteTtl", &key, ""),
-            "ReplNewerSet" => repl(&mut w, &key, "v1", 1, 0),
-            "ReplNewerTtl" => repl(&mut w, &key, "v1", 1, 2),
-            "ReplTombstone" => repl(&mut w, &key, "", 2, 1),
-            "ReplStale" => repl(&mut w, &key, "v1", 1, 0),
-            _ => Some(format!("unknown kind {kind}")),
-        }));
-        match ev { Ok(p) => { if p.is_some() { panic = p; } } Err(e) => panic = Some(panic_text(e)) }
-        if panic.is_none() { panic = pre_panic; }
-        let observed: Vec<Value> = log.lock().unwrap().clone();
         let mut exp: Vec<String> = case["expect"].as_array().map(|a| a.iter().map(|x| x.to_string()).collect()).unwrap_or_default();
         let mut obs: Vec<String> = observed.iter().map(|x| x.to_string()).collect();
         exp.sort();
